@@ -71,6 +71,9 @@ type c19Dir struct {
 	Ops   []c19Op `json:"ops"`             // writer script; ends with closewrite or close
 	Reads []int   `json:"reads"`           // read-buffer sizes, used cyclically
 	Pause int     `json:"pause,omitempty"` // reader sleeps this many ms after each of its first 16 reads
+	// Bytewise: writes of up to 300 bytes go through WriteByte and reads with a 1-byte
+	// buffer through ReadByte (the io.ByteWriter / io.ByteReader side of Stream).
+	Bytewise bool `json:"bytewise,omitempty"`
 }
 
 type c19Stream struct {
@@ -121,7 +124,7 @@ const (
 // c19NormDir makes a direction script canonical: it stops at the first closewrite/close
 // (appending closewrite if there is none), carries at most c19MaxBytes, has sane sizes.
 func c19NormDir(d c19Dir) c19Dir {
-	out := c19Dir{Pause: min(max(d.Pause, 0), 300)}
+	out := c19Dir{Pause: min(max(d.Pause, 0), 300), Bytewise: d.Bytewise}
 	total := 0
 	closed := false
 	for _, op := range d.Ops {
@@ -268,6 +271,10 @@ func c19Gen(t *rapid.T) c19Case {
 		d := c19Dir{
 			Ops:   rapid.SliceOfN(op, 0, 10).Draw(t, "ops"),
 			Reads: rapid.SliceOfN(rapid.SampledFrom([]int{1, 2, 3, 17, 100, 1000, 1200, 4096, 65536}), 1, 4).Draw(t, "reads"),
+		}
+		if pct("bytewise") < 20 {
+			d.Bytewise = true
+			d.Reads = append(d.Reads, 1)
 		}
 		if pct("tail") < 20 {
 			// everything flushed (and probably acknowledged) before the close: the FIN
@@ -688,7 +695,17 @@ func (x *c19Run) writer(d *c19DirRun, s *Stream, early bool, ownReader <-chan st
 		case "write":
 			b := make([]byte, op.N)
 			c19Fill(b, d.salt, d.wrote)
-			n, err := s.Write(b)
+			var n int
+			var err error
+			if d.spec.Bytewise && op.N <= 300 {
+				for n < op.N && err == nil {
+					if err = s.WriteByte(b[n]); err == nil {
+						n++
+					}
+				}
+			} else {
+				n, err = s.Write(b)
+			}
 			d.wrote += n
 			if err != nil {
 				d.werr = fmt.Errorf("Write(%d bytes) = %d, %v", op.N, n, err)
@@ -737,7 +754,16 @@ func (x *c19Run) reader(d *c19DirRun, s *Stream) {
 	zero := 0
 	for i := 0; ; i++ {
 		sz := d.spec.Reads[i%len(d.spec.Reads)]
-		n, err := s.Read(buf[:sz])
+		var n int
+		var err error
+		if d.spec.Bytewise && sz == 1 {
+			var b byte
+			if b, err = s.ReadByte(); err == nil {
+				buf[0], n = b, 1
+			}
+		} else {
+			n, err = s.Read(buf[:sz])
+		}
 		if n < 0 || n > sz {
 			d.bad = fmt.Sprintf("Read(%d-byte buffer) returned n=%d", sz, n)
 			return
